@@ -22,7 +22,12 @@ Arguments Ok {A} a. Arguments Fail {A}. Arguments OutOfFuel {A}.
 
 (* ReadSlice('\n') seen on the remaining byte stream: the delimiter is looked for in a window of
    n = len(buf) bytes; a full window without delimiter is returned whole (ErrBufferFull); fewer
-   bytes than a window without delimiter = the rest with the reader's error (EOF). *)
+   bytes than a window without delimiter = the rest with the reader's error (EOF).
+   One point depends on the transport: when exactly one window of bytes remains (no delimiter)
+   and the underlying reader has already reported io.EOF together with those bytes (eager = true,
+   e.g. the gzip reader), ReadSlice tests the pending error before "buffer full" and returns the
+   window with EOF; a reader that reports EOF by a separate empty read (eager = false) gives
+   ErrBufferFull first. *)
 Inductive slice := SDelim (l r : list N) | SFull (l r : list N) | SEof (l : list N).
 
 Definition cons_slice (c : N) (x : slice) : slice :=
@@ -32,13 +37,16 @@ Definition cons_slice (c : N) (x : slice) : slice :=
   | SEof l => SEof (c :: l)
   end.
 
-Fixpoint read_slice (n : nat) (s : list N) : slice :=
+Fixpoint read_slice (eager : bool) (n : nat) (s : list N) : slice :=
   match n with
-  | 0 => SFull [] s
+  | 0 => match s with
+         | [] => if eager then SEof [] else SFull [] []
+         | _ => SFull [] s
+         end
   | S n' =>
       match s with
       | [] => SEof []
-      | c :: r => if N.eqb c LF then SDelim [] r else cons_slice c (read_slice n' r)
+      | c :: r => if N.eqb c LF then SDelim [] r else cons_slice c (read_slice eager n' r)
       end
   end.
 
@@ -56,8 +64,8 @@ Definition strip_cr (l : list N) : list N :=
 (* ReadLine: (line, isPrefix, rest) or EOF.  A full window ending in '\r' gives the '\r' back. *)
 Inductive rline := RLine (l : list N) (pre : bool) (r : list N) | REof.
 
-Definition read_line (B : nat) (s : list N) : rline :=
-  match read_slice B s with
+Definition read_line (eager : bool) (B : nat) (s : list N) : rline :=
+  match read_slice eager B s with
   | SFull l r =>
       match drop_last_cr l with
       | Some i => RLine i true (CR :: r)
@@ -87,6 +95,7 @@ Definition action_ok (k : nat) (a : list N) : bool :=
   negb (Nat.ltb k 5) || contains pat_create a || contains pat_index a.
 
 Section Reader.
+  Variable eager : bool.
   Variable B : nat.
 
   (* readDoc's loop `for isPrefix { ReadLine }` : Ok rest.  io.EOF ends the skipped line (it is
@@ -96,7 +105,7 @@ Section Reader.
     match f with
     | 0 => OutOfFuel
     | S f' =>
-        match read_line B s with
+        match read_line eager B s with
         | REof => Ok []
         | RLine _ true r => skip_big f' r
         | RLine _ false r => Ok r
@@ -108,7 +117,7 @@ Section Reader.
     match f with
     | 0 => OutOfFuel
     | S f' =>
-        match read_line B s with
+        match read_line eager B s with
         | REof => Ok None
         | RLine _ true _ => Fail
         | RLine [] false r => skip_action f' r k
@@ -118,7 +127,7 @@ Section Reader.
 
   (* readDoc: Ok (Some doc, rest) | Ok (None, rest) = size exceeded, skipped | Fail *)
   Definition read_doc (f : nat) (s : list N) : res (option (list N) * list N) :=
-    match read_line B s with
+    match read_line eager B s with
     | REof => Fail
     | RLine d false r => Ok (Some d, r)
     | RLine _ true r =>
@@ -145,6 +154,7 @@ Inductive outcome := Accepted (docs : list (list N)) | Rejected | Miss | Fuel.
 (* the two nested loops (ReadDoc's `for` and processDocsToCompressor's `for`) as one loop;
    acc = documents appended to the payload so far, newest first *)
 Section Run.
+  Variable eager : bool.
   Variable B : nat.
   Variable classify : list N -> option cls.     (* None: the oracle table has no entry *)
 
@@ -152,12 +162,12 @@ Section Run.
     match f with
     | 0 => Fuel
     | S f' =>
-        match skip_action B f s k with
+        match skip_action eager B f s k with
         | OutOfFuel => Fuel
         | Fail => Rejected
         | Ok None => Accepted (rev acc)
         | Ok (Some (r, k')) =>
-            match read_doc B f r with
+            match read_doc eager B f r with
             | OutOfFuel => Fuel
             | Fail => Rejected
             | Ok (None, r') => run f' r' k' acc
